@@ -199,6 +199,8 @@ class SsbOpParamFixedPoint:
                 whole_part = "0"
             elif whole_part.rstrip("0") == "-":
                 whole_part = "-0"
+            elif whole_part.startswith("-"):
+                whole_part = "-" + whole_part[1:].lstrip("0")
 
             whole: int | type[SsbOpParamFixedPoint.NegativeZero]
             whole = int(whole_part) if whole_part != "-0" else SsbOpParamFixedPoint.NegativeZero
